@@ -65,13 +65,25 @@ class Failure(Exception):
 def run_case(case, tool, reader, work):
     """Export with the C++ library, read back with the package's reader, compare."""
     os.makedirs(work, exist_ok=True)
+    for fn in os.listdir(work):
+        if fn.endswith((".aux", ".nodes", ".nets", ".pl", ".scl")):
+            os.remove(os.path.join(work, fn))
+    base = case.get("base", "rt")
+    if case.get("pre") and "." in base:
+        # an earlier export of another circuit under the stem of the name (e.g. "ckt" before
+        # "ckt.placed") must not be what the later .aux file points to
+        decoy = dict(case, base=base.split(".")[0], pre=False,
+                     cells=[dict(c, x=c["x"] + 1, o=0) for c in case["cells"]])
+        export_case(decoy, tool, work)
+    cpp_hpwl = export_case(case, tool, work)
+    prefix = os.path.join(work, base)
+    cells, rows, nets = case["cells"], case["rows"], case["nets"]
+    check_back(case, cpp_hpwl, prefix, reader)
+
+
+def export_case(case, tool, work):
     desc = os.path.join(work, "case.txt")
-    prefix = os.path.join(work, "rt")
-    for ext in (".aux", ".nodes", ".nets", ".pl", ".scl"):
-        try:
-            os.remove(prefix + ext)
-        except OSError:
-            pass
+    prefix = os.path.join(work, case.get("base", "rt"))
     cells, rows, nets = case["cells"], case["rows"], case["nets"]
     with open(desc, "w") as f:
         f.write("%d\n" % len(cells))
@@ -96,6 +108,11 @@ def run_case(case, tool, reader, work):
     want_hpwl = ref_hpwl(cells, nets)
     if cpp_hpwl != want_hpwl:
         raise Failure("Circuit::hpwl() = %d but the reference wirelength of the case is %d" % (cpp_hpwl, want_hpwl))
+    return cpp_hpwl
+
+
+def check_back(case, cpp_hpwl, prefix, reader):
+    cells, rows, nets = case["cells"], case["rows"], case["nets"]
     try:
         back = reader.Circuit.read_ispd(prefix + ".aux")
     except Exception as e:  # the package's reader must accept what the library writes
@@ -197,7 +214,11 @@ def strategies():
                     py = draw(st.integers(-c["h"] - scale, 2 * c["h"] + scale))
                 net.append((ci, px, py))
             nets.append(net)
-        return dict(cells=cells, rows=rows, nets=nets)
+        # the name handed to exportIspd (dots in the last component are ordinary characters), and
+        # whether another circuit was exported under the stem of that name before
+        base = draw(st.sampled_from(["rt", "rt", "rt.placed", "design.v2", "a.b.c", "ckt-1_final", "x"]))
+        pre = draw(st.booleans())
+        return dict(cells=cells, rows=rows, nets=nets, base=base, pre=pre)
 
     return circuit()
 
